@@ -126,7 +126,7 @@ def specs(cfg, min_size=1, max_size=3):
 def ansi_text(cfg):
     """An ANSI-coded constructor argument built from tokens (plain bodies only)."""
     body = st.sampled_from(['', '0', '1', '31', '1;31', '22', '39', '4', '24', '38;5;200', '1;38;5;200', '48;2;1;2;3',
-                            '0;1', '31;0', '2', '34', '41', '49', '56', '21', '58;5;9', '59', '3;23', '1;2;22;1'])
+                            '0;1', '31;0', '2', '34', '41', '49', '56', '21', '58;5;9', '59', '3;23', '1;2;22;1', '38;5;300', '48;2;0;0;256', '1;38;5;256'])
     tok = weighted((1, texts(0, 3, esc=False, nonascii=cfg.nonascii)), (2, body.map(lambda b: '\x1b[' + b + 'm')))
     return st.lists(tok, max_size=7).map(''.join)
 
@@ -194,11 +194,11 @@ RICH_OPS = ['apply'] * 8 + ['remove'] * 3 + ['slice', 'clip', 'add', 'add', 'iad
 
 
 def small_sub(cfg):
-    return texts(0, 2, esc=False, nonascii=False, alphabet='abAB -:\t\n01')
+    return texts(0, 2, esc=False, nonascii=False, alphabet=(cfg.alphabet if cfg.alphabet else 'abAB -:\t\n01'))
 
 
 def operand(cfg, depth):
-    opts = [texts(0, 4, esc=cfg.esc, nonascii=cfg.nonascii).map(lambda t: {'k': 'str', 't': t})]
+    opts = [texts(0, 4, esc=cfg.esc, nonascii=cfg.nonascii, alphabet=cfg.alphabet).map(lambda t: {'k': 'str', 't': t})]
     if depth > 0:
         sub = prog(cfg, depth - 1, max_ops=2)
         opts += [sub.map(lambda p: {'k': 'prog', 'p': p}), sub.map(lambda p: {'k': 'prog', 'p': p})]
@@ -213,6 +213,7 @@ def op(cfg, depth, names=None, opnd=None):
     ip = st.booleans()
     sub = small_sub(cfg)
     opd = opnd if opnd is not None else operand(cfg, depth)
+    pa = ''.join(cfg.alphabet) if cfg.alphabet and all(len(x) == 1 for x in cfg.alphabet) else 'abAB -:01'
     table = {
         'apply': st.fixed_dictionaries({'op': st.just('apply'), 's': specs(cfg), 'a': idx(cfg.far), 'b': idx(cfg.far),
                                         'top': st.sampled_from([True, True, False])}),
@@ -229,7 +230,7 @@ def op(cfg, depth, names=None, opnd=None):
         'center': st.fixed_dictionaries({'op': st.just('center'), 'w': width, 'f': fill, 'ext': st.booleans(), 'ip': ip}),
         'zfill': st.fixed_dictionaries({'op': st.just('zfill'), 'w': width, 'ip': ip}),
         'assign': st.fixed_dictionaries({'op': st.just('assign'), 't': texts(0, 12, esc=cfg.esc, nonascii=cfg.nonascii)}),
-        'replace': st.fixed_dictionaries({'op': st.just('replace'), 'old': texts(1, 2, nonascii=False, alphabet='abAB -:01'),
+        'replace': st.fixed_dictionaries({'op': st.just('replace'), 'old': texts(1, 2, nonascii=False, alphabet=pa),
                                           'new': opd, 'n': st.sampled_from([-1, -1, 0, 1, 2]), 'ip': ip}),
         'strip': st.fixed_dictionaries({'op': st.just('strip'), 'c': st.one_of(st.none(), sub), 'ip': ip}),
         'lstrip': st.fixed_dictionaries({'op': st.just('lstrip'), 'c': st.one_of(st.none(), sub), 'ip': ip}),
@@ -238,19 +239,19 @@ def op(cfg, depth, names=None, opnd=None):
         'rmsuffix': st.fixed_dictionaries({'op': st.just('rmsuffix'), 't': sub, 'ip': ip}),
         'case': st.fixed_dictionaries({'op': st.just('case'), 'm': st.sampled_from(['lower', 'upper', 'title', 'capitalize', 'swapcase', 'casefold']), 'ip': ip}),
         'expandtabs': st.fixed_dictionaries({'op': st.just('expandtabs'), 'n': st.integers(0, 4), 'ip': ip}),
-        'split': st.fixed_dictionaries({'op': st.just('split'), 'sep': st.one_of(st.none(), texts(1, 2, nonascii=False, alphabet='abAB -:01')),
+        'split': st.fixed_dictionaries({'op': st.just('split'), 'sep': st.one_of(st.none(), texts(1, 2, nonascii=False, alphabet=pa)),
                                         'n': st.sampled_from([-1, -1, 0, 1, 2]), 'pick': st.integers(0, 5)}),
-        'rsplit': st.fixed_dictionaries({'op': st.just('rsplit'), 'sep': st.one_of(st.none(), texts(1, 2, nonascii=False, alphabet='abAB -:01')),
+        'rsplit': st.fixed_dictionaries({'op': st.just('rsplit'), 'sep': st.one_of(st.none(), texts(1, 2, nonascii=False, alphabet=pa)),
                                          'n': st.sampled_from([-1, -1, 0, 1, 2]), 'pick': st.integers(0, 5)}),
         'splitlines': st.fixed_dictionaries({'op': st.just('splitlines'), 'keep': st.booleans(), 'pick': st.integers(0, 5)}),
-        'partition': st.fixed_dictionaries({'op': st.just('partition'), 'sep': texts(1, 2, nonascii=False, alphabet='abAB -:01'), 'pick': st.integers(0, 2)}),
-        'rpartition': st.fixed_dictionaries({'op': st.just('rpartition'), 'sep': texts(1, 2, nonascii=False, alphabet='abAB -:01'), 'pick': st.integers(0, 2)}),
+        'partition': st.fixed_dictionaries({'op': st.just('partition'), 'sep': texts(1, 2, nonascii=False, alphabet=pa), 'pick': st.integers(0, 2)}),
+        'rpartition': st.fixed_dictionaries({'op': st.just('rpartition'), 'sep': texts(1, 2, nonascii=False, alphabet=pa), 'pick': st.integers(0, 2)}),
         'simplify': st.just({'op': 'simplify'}),
         'clear': st.just({'op': 'clear'}),
         'copy': st.just({'op': 'copy'}),
-        'fmtmatch': st.fixed_dictionaries({'op': st.just('fmtmatch'), 'pat': texts(1, 2, nonascii=False, alphabet='abAB -:01.'),
+        'fmtmatch': st.fixed_dictionaries({'op': st.just('fmtmatch'), 'pat': texts(1, 2, nonascii=False, alphabet=pa + '.'),
                                            's': specs(cfg), 'regex': st.just(False), 'mc': st.booleans(), 'n': st.sampled_from([-1, -1, 1, 2])}),
-        'unfmtmatch': st.fixed_dictionaries({'op': st.just('unfmtmatch'), 'pat': texts(1, 2, nonascii=False, alphabet='abAB -:01.'),
+        'unfmtmatch': st.fixed_dictionaries({'op': st.just('unfmtmatch'), 'pat': texts(1, 2, nonascii=False, alphabet=pa + '.'),
                                              's': st.one_of(st.just([]), specs(cfg, 1, 2)), 'regex': st.just(False), 'mc': st.booleans(),
                                              'n': st.sampled_from([-1, -1, 1, 2])}),
         'conv': st.fixed_dictionaries({'op': st.just('conv'), 'to': st.sampled_from(['S', 's'])}),
